@@ -31,6 +31,7 @@ func runC08(c *core.Ctx) {
 	}
 	n := 0
 	for _, fn := range c.P.FuncsOfPkg(pkg) {
+		k := 0
 		core.Instrs(fn, func(in ssa.Instruction) {
 			mu, ok := in.(*ssa.MapUpdate)
 			if !ok {
@@ -40,10 +41,11 @@ func runC08(c *core.Ctx) {
 				return
 			}
 			n++
+			k++
 			c.Sites++
 			c.Analysed(core.QualName(fn))
 			fresh, why := core.FreshSlice(mu.Value)
-			c.Check(fresh, "C08/stored-value-is-fresh", fmt.Sprintf("%s/dirtyData-insert#%d", fname(fn), n), mu.Pos(),
+			c.Check(fresh, "C08/stored-value-is-fresh", fmt.Sprintf("%s/dirtyData-insert#%d", fname(fn), k), mu.Pos(),
 				"the stored slice is allocated in this function on every path",
 				"the slice stored in dirtyData may share its backing array with "+why+": a later write through that buffer changes the stored value")
 		})
